@@ -65,7 +65,8 @@ class C13(object):
                    'operators or string literals (not valid in equation blocks anyway) are not fed to that sub-check']
     required_counters = ('list_tokens.judged', 'lookup.judged', 'replace_token.judged', 'eval.judged', 'block_rename.judged', 'reduction_rename.judged', 'reduction_rename.targeted', 'block_rename.second_pass_judged',
                          'insitu.replace_token_from_lookup.post_evaluated',
-                         'squeezed_lookalikes.judged')
+                         'squeezed_lookalikes.judged',
+                         'block_rename.new_right_hand_side_between_two_passes_judged')
 
     def n_cases(self, tier):
         return (20 if tier == 'quick' else 2000) + 1
@@ -229,6 +230,28 @@ class C13(object):
                             {'equation': k, 'lookup': lk, 'map_kind': kind, 'before': [v for _, v in before[k]],
                              'got': [v for _, v in got], 'expected': [v for _, v in exp]})
                 return
+        # a sector equation the first pass had no reason to touch gets a NEW right-hand side (SetEquationRightHandSide) and is then
+        # asked to rename names of that new text
+        from sfc_models.models import Model as _M, Country as _C
+        from sfc_models.sector import Sector as _S
+        sec = _S(_C(_M(), 'C0', 'c'), 'S', 's', has_F=False)
+        sec.AddVariable('lhs3', 'd', 'untouched_a + 2*untouched_b')
+        sec.AddVariable('lhs4', 'd', blob)
+        try:
+            sec.EquationBlock.ReplaceTokensFromLookup(dict(lk))
+            sec.SetEquationRightHandSide('lhs3', '3*late_v - untouched_a/late_w')
+            sec.EquationBlock.ReplaceTokensFromLookup({'late_v': 'second_late', 'late_w': names[0]})
+            got3 = [v for _, v in monitors.token_stream(sec.EquationBlock['lhs3'].RHS())]
+        except Exception as e:
+            rec.violate('block_rename_raised', {'lookup': lk, 'after': 'SetEquationRightHandSide between two passes', 'err': repr(e)})
+            return
+        rec.count('block_rename.new_right_hand_side_between_two_passes_judged')
+        exp3 = ['3', '*', 'second_late', '-', 'untouched_a', '/', names[0]]
+        if [v for v in got3 if v not in ('+',)] != exp3 and got3 != ['+'] + exp3:
+            rec.violate('block_rename_not_applied_exactly_once',
+                        {'equation': 'lhs3', 'history': 'first pass did not concern it; right-hand side replaced; second pass names the new text',
+                         'got': got3, 'expected': exp3})
+            return
         # a second renaming pass over the SAME objects, asking for the names the first pass introduced
         introduced = sorted(set(v for _, v in monitors.token_stream(blk['lhs1'].RHS()) if v in set(lk.values())))
         if not introduced:
